@@ -282,6 +282,25 @@ fn grammar() -> Vec<Line> {
     out.push(Line { text: format!("{}1{}", "[".repeat(100), "]".repeat(100)), shape: Shape::NotRequest });
     out.push(Line { text: format!("{{\"jsonrpc\":\"2.0\",\"id\":1,\"method\":\"{}\"}}", "m".repeat(5000)), shape: Shape::Request });
     out.push(Line { text: "{\"jsonrpc\":\"2.0\",\"id\":1,\"method\":\"set_mode\",\"params\":{\"mode\":\"cl\\u0061ssic\"}}".into(), shape: Shape::Request });
+    // (3) every client-controlled string position x every byte length 0..=160 x a 1/2/3/4-byte
+    // character at the end of the prefix (so every byte offset is or is not a character boundary)
+    for pre in 0..=160usize {
+        for ch in ["", "\u{e9}", "\u{20ac}", "\u{1f600}"] {
+            for suf in ["", "z"] {
+                let v = format!("{}{ch}{suf}", "a".repeat(pre));
+                for t in [
+                    format!("{{\"jsonrpc\":\"2.0\",\"id\":1,\"method\":\"{v}\"}}"),
+                    format!("{{\"jsonrpc\":\"2.0\",\"id\":1,\"method\":\"set_mode\",\"params\":{{\"mode\":\"{v}\"}}}}"),
+                    format!("{{\"jsonrpc\":\"2.0\",\"id\":\"{v}\",\"method\":\"get_status\"}}"),
+                    format!("{{\"jsonrpc\":\"2.0\",\"id\":\"{v}\",\"method\":\"set_conn_timeout\",\"params\":{{\"ms\":\"{v}\"}}}}"),
+                    format!("{{\"jsonrpc\":\"{v}\",\"id\":1,\"method\":\"get_status\"}}"),
+                    format!("{{\"jsonrpc\":\"2.0\",\"id\":1,\"method\":\"set_quality\",\"params\":{{\"{v}\":true}}}}"),
+                ] {
+                    out.push(Line { text: t, shape: Shape::Request });
+                }
+            }
+        }
+    }
     out
 }
 
